@@ -91,6 +91,8 @@ func (h Hilbert2D) Coord(dst []int, pos int) []int {
 		dst = make([]int, 2)
 	} else if len(dst) != 2 {
 		panic("len(dst) must equal 2")
+	} else {
+		clear(dst)
 	}
 	for n := 0; n < h.order; n++ {
 		e := pos & 3
@@ -183,6 +185,8 @@ func (h Hilbert3D) Coord(dst []int, pos int) []int {
 		dst = make([]int, 3)
 	} else if len(dst) != 3 {
 		panic("len(dst) must equal 3")
+	} else {
+		clear(dst)
 	}
 	for n := 0; n < h.order; n++ {
 		e := pos & 7
@@ -287,6 +291,8 @@ func (h Hilbert4D) Coord(dst []int, pos int) []int {
 		dst = make([]int, 4)
 	} else if len(dst) != 4 {
 		panic("len(dst) must equal 4")
+	} else {
+		clear(dst)
 	}
 	N := 4
 	for n := 0; n < h.order; n++ {
